@@ -84,6 +84,7 @@ PROP = {
                 H("c13_step_seg2_anyidx", "B", tier="experimental", bound="path = 1 segment x 2 hop fields (36 B), CurrINF/CurrHF symbolic", what="as above for every (also inconsistent) CurrINF/CurrHF; malformed => drop with untouched packet", timeout=5400),
                 H("c13_step_seg2x2_anyidx", "B", tier="experimental", bound="path = 2 segments x 2 hop fields (68 B), CurrINF/CurrHF symbolic", what="as above for every CurrINF/CurrHF", timeout=7200),
                 H("c13_step_ingress_owner", "B", bound="path = 1 segment x 2 hop fields (36 B), CurrHF=1 (last hop), MACs ignored, unread bytes (hop field 0, MAC) zero", what="accepted from outside => arriving interface == travel ingress of the arrival hop field [fails on HEAD: F-ingress0]", timeout=3600),
+                H("c13_step_xover_sound", "B", bound="path = 2 segments x 2 hop fields (68 B), CurrHF=1, MACs ignored, unread bytes zero", what="a forwarding verdict at a crossover => egress = new segment's egress, both links exist, egress link is up, link-type pair in the table", timeout=3600),
                 H("c13_step_xover_accept", "B", bound="path = 2 segments x 2 hop fields (68 B), CurrHF=1, MACs ignored, unread bytes (hop fields 0 and 3, MACs) zero", what="SCION-valid crossover (incl. shortcut) is forwarded over the new segment's egress [fails on HEAD: F-xover]", timeout=3600),
             ],
         },
